@@ -116,6 +116,13 @@ def pair_thunk(eng, na, nb):
             pr = unwrap_ok(eng.call_named("CommitTree::proof", [Ref(tb), Ref(idx)], None), "proof")
             r = eng.call_named("CommitProof::verify_leaves", [Ref(Cell(pr)), Ref(leaves_a)], None)
             vl.append(r.fields[0].v)
+        # compare against single-leaf proofs of B (what the ancestor scan sends)
+        sc = []
+        for i in range(nb):
+            idx = Cell(Agg("array", None, [Cell(Int(i, 64))]))
+            pr = unwrap_ok(eng.call_named("CommitTree::proof", [Ref(tb), Ref(idx)], None), "proof")
+            sc.append(unwrap_ok(eng.call_named("CommitTree::compare", [Ref(ta), Ref(Cell(pr))], None), "compare(single)"))
+        ctx.single = sc
         return (cmp_, vl)
     return thunk
 
@@ -195,6 +202,22 @@ def run_pair(prog, na, nb):
             check(res, z3.Not(z3.Or(eqseq, prefix)), "compare=Unknown", "Unknown only when neither equal nor prefix")
         else:
             out["inconclusive"].append("compare returned %r" % (cmp_,))
+        for i, c1 in enumerate(getattr(res.ctx, "single", [])):
+            k1, ix1 = classify_compare(c1)
+            agree = (ida[i] == idb[i]) if i < na else z3.BoolVal(False)
+            if k1 == "Equal":
+                check(res, eqseq, "compare(single[%d])=Equal" % i, "Equal only when both logs hold the same sequence")
+            elif k1 == "Contains":
+                check(res, agree, "compare(single[%d])=Contains" % i, "Contains for a single-leaf proof only when that position agrees")
+                if ix1 != [i]:
+                    mm = H.witness_for(res)
+                    if mm is not None:
+                        out["obligations"] += 1
+                        out["cex"].append({"what": "compare(single[%d])=Contains indices" % i, "expect": "indices == [%d], got %r" % (i, ix1),
+                                           "a": [mm.eval(x, model_completion=True).as_long() for x in ida],
+                                           "b": [mm.eval(x, model_completion=True).as_long() for x in idb]})
+            elif k1 == "Unknown":
+                check(res, z3.Not(z3.Or(eqseq, agree)), "compare(single[%d])=Unknown" % i, "Unknown only when the proven position does not agree")
         for i, r in enumerate(vl):
             if i >= na:
                 continue
@@ -227,6 +250,9 @@ def finding_key(cex, nat):
     what = cex["what"]
     if what == "compare=Contains indices":
         return "compare=Contains|reported position is not the other log's last index"
+    if what.startswith("compare(single"):
+        kind = what.split("=")[1]
+        return "compare(single-leaf proof)=%s" % kind
     if what.startswith("compare="):
         last_match = len(a) >= len(b) and len(b) > 0 and a[len(b) - 1] == b[len(b) - 1]
         rel = "lenA>lenB" if len(a) > len(b) else ("lenA=lenB" if len(a) == len(b) else "lenA<lenB")
@@ -309,6 +335,20 @@ def confirm(cex, nat):
     prefix = len(b) < len(a) and a[:len(b)] == b
     if what == "compare=Contains indices":
         return nat["compare"]["kind"] == "Contains" and nat["compare"].get("indices") != [len(b) - 1]
+    if what.startswith("compare(single"):
+        i = int(what.split("[")[1].split("]")[0])
+        c1 = nat.get("compare_single", [])[i]
+        agree = i < len(a) and a[i] == b[i]
+        if "indices" in what:
+            return c1["kind"] == "Contains" and c1.get("indices") != [i]
+        k = c1["kind"]
+        if k == "Equal":
+            return not eqseq
+        if k == "Contains":
+            return not agree
+        if k == "Unknown":
+            return eqseq or agree
+        return False
     if what.startswith("compare="):
         k = nat["compare"]["kind"]
         if k == "Equal":
